@@ -265,7 +265,10 @@ CGEN_FUNCTIONS = ["constmap.c:hash:C_cm_hash", "cdb_hash.c:cdb_hash", "cdb_unpac
                   "scan_ulong.c:scan_ulong:K_scan_ulong:chk", "ip.c:ip_scan:K_ip_scan:chk", "ip.c:ip_scanbracket:K_ip_scanbracket:chk",
                   "quote.c:doit:K_quote_doit:chk", "byte_chr.c:byte_chr:K_byte_chr:chk", "str_chr.c:str_chr:K_str_chr:chk",
                   "case_diffb.c:case_diffb:K_case_diffb:chk", "fmt_ulong.c:fmt_ulong:K_fmt_ulong:chk", "fmt_str.c:fmt_str:K_fmt_str:chk",
-                  "byte_copy.c:byte_copy:K_byte_copy:chk", "cdb_unpack.c:cdb_unpack:K_cdb_unpack:chk", "constmap.c:hash:K_cm_hash:chk"]
+                  "byte_copy.c:byte_copy:K_byte_copy:chk", "cdb_unpack.c:cdb_unpack:K_cdb_unpack:chk", "constmap.c:hash:K_cm_hash:chk",
+                  "quote.c:quote_need", "quote.c:quote_need:K_quote_need:chk", "hfield.c:hmatch:K_hmatch:chk", "token822.c:atomcheck:K_atomcheck:chk",
+                  "control.c:striptrailingwhitespace:K_striptrailingwhitespace:chk", "case_lowerb.c:case_lowerb:K_case_lowerb:chk",
+                  "byte_rchr.c:byte_rchr:K_byte_rchr:chk", "str_rchr.c:str_rchr:K_str_rchr:chk"]
 
 def gen_params(srcdir):
     r = run([sys.executable, os.path.join(VERIF, "tools", "extract_params.py"), srcdir])
